@@ -63,7 +63,7 @@ package api
 // configured only for another group must not open this one)
 //@   loop 1 iteration-ensures [own-key-registered] calls(codec.NewRsaDecryptor) == 1 && arg(codec.NewRsaDecryptor, 0) == at_head(signature.PrivateKeys[rangeindex + 1]).KeyFile && ret(codec.NewRsaDecryptor, 1) == nil && has(decryptors, at_head(signature.PrivateKeys[rangeindex + 1]).Fingerprint) && decryptors[at_head(signature.PrivateKeys[rangeindex + 1]).Fingerprint] == ret(codec.NewRsaDecryptor, 0)
 //@   ensures [table-made-for-this-group] signature.enabled && len(signature.PrivateKeys) > 0 && result1 == nil ==> fresh(*captured(result0, map[string]codec.RsaDecryptor))
-//@   ensures [key-file-error] signature.enabled && len(signature.PrivateKeys) > 0 && result1 != nil ==> result0 == nil && result1 == ret(codec.NewRsaDecryptor, 1)
+//@   ensures [key-file-error] signature.enabled && len(signature.PrivateKeys) > 0 && result1 != nil ==> result0 == nil && result1 == ret(codec.NewRsaDecryptor, 1, last)
 //@ func (*engine).signatureVerifier$3
 //@   prop C04
 //@   opaque ContentSecurityHandler
